@@ -411,6 +411,10 @@ class Stats:
         self.inadmissible[k] = self.inadmissible.get(k, 0) + 1
 
 
+TEXT_DEFINED = {"nthash", "bsd_nthash", "msdcc", "msdcc2", "mssql2000", "mssql2005", "oracle10", "lmhash", "scram", "htdigest",
+                "plaintext", "ldap_plaintext", "roundup_plaintext"}
+
+
 def is_refusal(err, pw, enc, name=""):
     """documented 'inadmissible password' outcome of hash()/verify()"""
     from passlib import exc
@@ -420,6 +424,12 @@ def is_refusal(err, pw, enc, name=""):
     if isinstance(err, UnicodeError):
         # only when the password really is not text in the hasher's encoding(s)
         if isinstance(pw, bytes):
+            # bytes that are not text: only the formats DEFINED over text may refuse them (UTF-16 transcoding: nthash,
+            # msdcc*, mssql*, oracle10; code pages: lmhash; SASLprep: scram; stored text: plaintext family; htdigest's
+            # user:realm:password line).  Every byte-oriented format must hash them (des/md5/sha-crypt fall back to
+            # their built-in code when crypt(3) cannot take the bytes).
+            if name not in TEXT_DEFINED:
+                return False
             return _t(pw, "utf-8") is None or _t(pw, enc) is None
         # lmhash upper-cases the text before encoding it (lmhash.rst, "Upper Case Conversion")
         return not (_encodable(pw, enc) and _encodable(pw.upper(), enc))
